@@ -1534,6 +1534,16 @@ class GMod(G):
             path = list(self.pick(earlier)[2]) + [name]
         self.paths[name] = path
         out = [("print", ("str", "run " + name))]
+        if self.chance(30):
+            # the module's body waits for a fiber of its own: whoever imports it must not continue before it is done
+            # (the launched function is silent, so what is printed does not depend on the schedule)
+            k = self.i(1, 9)
+            out.append(("let", "ch_" + name, ("chan", None if self.chance(50) else ("num", 1.0))))
+            out.append(("fn", "feed_" + name, ["c"], [("expr", ("send", ("var", "c"), ("num", float(k))))]))
+            out.append(("launch", ("call", ("var", "feed_" + name), [("var", "ch_" + name)])))
+            out.append(("let", "got_" + name, ("recv", ("var", "ch_" + name))))
+            out.append(("print", ("interp", ["got ", ("var", "got_" + name)])))
+            self.blocking_modules = getattr(self, "blocking_modules", 0) + 1
         exports = {}
         priv = "priv%d" % idx
         out.append(("let", priv, ("num", float(self.i(1, 9) * 10))))
@@ -1626,6 +1636,12 @@ class GMod(G):
             mods.append((name, stmts, exports, path))
             files["/v/%s.lay" % "/".join(path)] = stmts
         main = [("print", ("str", "run main"))]
+        if self.chance(40):
+            # fibers launched before the imports: when they finish they wake their launcher, which may be in the
+            # middle of an import by then
+            main.append(("fn", "bg", ["k"], [("let", "t", ("bin", "+", ("var", "k"), ("num", 1.0)))]))
+            for j in range(self.i(1, 3)):
+                main.append(("launch", ("call", ("var", "bg"), [("num", float(j))])))
         # the library modules of the same names, imported before or after the project ones
         std_pending = [("import", ["std", n], ("whole", "std_" + n)) for n in self.used_std if self.chance(70)]
         if std_pending and self.chance(50):
